@@ -195,7 +195,8 @@ def run_unit(unit, cover=False, threads=4, rlimit=None, keep=True, skip=()):
                     r2.fns[(mod, fm["fn"])] = dict(status="undecided", time_us=0, rlimit=0, cover_hit=False,
                                                    errors=[dict(kind="other", title="front-end error: " + hard[0].split("\n")[0][:200],
                                                                 text=hard[0][:1500], lines=[], cover=False)])
-                r2.meta["modules"][mod] = mm
+                mm2 = dict(mm)
+                r2.meta["modules"][mod] = mm2
             r2.isolated = sorted(bad_mods)
             return r2
         res.status = "undecided"
